@@ -17,6 +17,38 @@ impl Prompt {
         }
     }
 
+    /// Verification hook: read the (possibly continued) line from stdin
+    /// instead of the terminal; "quit" at end of input.
+    #[cfg(feature = "verif_hooks")]
+    pub fn show(&mut self) -> Result<String, dialoguer::Error> {
+        use std::io::BufRead;
+        let _ = (&self.history, &self.commands, PROMPT_MAIN, PROMPT_CONTINUE);
+        let mut input_lines: Vec<String> = Vec::new();
+        loop {
+            let mut input_line = String::new();
+            let n = std::io::stdin().lock().read_line(&mut input_line).unwrap_or(0);
+            if n == 0 {
+                if input_lines.is_empty() {
+                    return Ok("quit".to_string());
+                }
+                break;
+            }
+            let input_line = input_line.trim_end_matches(['\n', '\r']).to_string();
+            let is_continuation = input_line.trim_end().ends_with('\\');
+            let cleaned_line = if is_continuation {
+                input_line.trim_end_matches('\\').to_string()
+            } else {
+                input_line
+            };
+            input_lines.push(cleaned_line);
+            if !is_continuation {
+                break;
+            }
+        }
+        Ok(input_lines.join("\n"))
+    }
+
+    #[cfg(not(feature = "verif_hooks"))]
     pub fn show(&mut self) -> Result<String, dialoguer::Error> {
         let mut input_lines = Vec::new();
 
